@@ -366,17 +366,32 @@ fn parse_token(text: &str) -> IResult<&str, Token> {
     }
 }
 
-fn parse_token_not_semicolon(text: &str) -> IResult<&str, Token> {
-    let (rest, token) = parse_token(text)?;
-    if token == Token::Semicolon || token == Token::CloseBrace {
-        fail(text)
-    } else {
-        Ok((rest, token))
-    }
-}
-
 fn parse_value(text: &str) -> IResult<&str, RawValue> {
-    let (rest, mut tokens) = many0(parse_token_not_semicolon)(text)?;
+    // A value ends at a ';' that is not inside a (), [] or {} block (so that e.g.
+    // `url(data:image/png;base64,...)` stays in one piece), or at a '}' that doesn't
+    // close a '{' opened inside the value.
+    let mut tokens = Vec::new();
+    let mut rest = text;
+    // The closing tokens we're waiting for, innermost last.
+    let mut open_blocks: Vec<Token> = Vec::new();
+    while let Ok((next, token)) = parse_token(rest) {
+        match token {
+            Token::Semicolon if open_blocks.is_empty() => break,
+            Token::CloseBrace if !open_blocks.contains(&Token::CloseBrace) => break,
+            Token::Function(_) | Token::OpenRound => open_blocks.push(Token::CloseRound),
+            Token::OpenSquare => open_blocks.push(Token::CloseSquare),
+            Token::OpenBrace => open_blocks.push(Token::CloseBrace),
+            Token::CloseRound | Token::CloseSquare | Token::CloseBrace => {
+                // Close the innermost block of this kind (and anything left open inside it).
+                if let Some(pos) = open_blocks.iter().rposition(|t| *t == token) {
+                    open_blocks.truncate(pos);
+                }
+            }
+            _ => {}
+        }
+        tokens.push(token);
+        rest = next;
+    }
     let mut important = false;
     if let [.., Token::Delim('!'), Token::Ident(x)] = &tokens[..] {
         if x == "important" {
